@@ -141,58 +141,73 @@ structure RefSt where
   mem : ArrMem
   ext : HExt
 
-/-- Reference copy of one element (`none`: outside the stated domain). -/
-def refElem (c : DmaChannel) (s : RefSt) (src dst : U32) : Option RefSt := do
+/-- Value of one source element for the reference copy (`none`: outside the stated domain). -/
+def refRead (c : DmaChannel) (s : RefSt) (src : U32) : Option U32 :=
   let dw := c.dwordMode ≠ 0
-  -- read
-  let value : U32 ←
-    if c.srcSpace = 0 then
-      if dw then do
-        let il ← dspIndex (src &&& 0xFFFFFFFE)
-        let ih ← dspIndex (src ||| 1)
-        pure ((DspMem.read s.mem ih ++ DspMem.read s.mem il : U32))
-      else do
-        let i ← dspIndex src
-        pure ((DspMem.read s.mem i).setWidth 32)
-    else if c.srcSpace = 7 then
-      if dw then (if src &&& 3 = 0 then some ((ExtMem.reader s.ext).read32 src) else none)
-      else (if src &&& 1 = 0 then some (((ExtMem.reader s.ext).read16 src).setWidth 32) else none)
-    else none
-  -- write
-  if c.dstSpace = 0 then
-    if dw then do
-      let il ← dspIndex (dst &&& 0xFFFFFFFE)
-      let ih ← dspIndex (dst ||| 1)
-      pure { s with mem := DspMem.write (DspMem.write s.mem il (value.setWidth 16)) ih ((value >>> 16).setWidth 16) }
-    else do
-      let i ← dspIndex dst
-      pure { s with mem := DspMem.write s.mem i (value.setWidth 16) }
-  else if c.dstSpace = 7 then
-    if dw then (if dst &&& 3 = 0 then some { s with ext := ExtMem.apply s.ext ⟨.write, 32, dst, value⟩ } else none)
-    else (if dst &&& 1 = 0 then some { s with ext := ExtMem.apply s.ext ⟨.write, 16, dst, value &&& 0xFFFF⟩ } else none)
+  if c.srcSpace = 0 then
+    if dw then
+      match dspIndex (src &&& 0xFFFFFFFE), dspIndex (src ||| 1) with
+      | some il, some ih => some ((DspMem.read s.mem ih ++ DspMem.read s.mem il : U32))
+      | _, _ => none
+    else
+      match dspIndex src with
+      | some i => some ((DspMem.read s.mem i).setWidth 32)
+      | none => none
+  else if c.srcSpace = 7 then
+    if dw then (if src &&& 3 = 0 then some ((ExtMem.reader s.ext).read32 src) else none)
+    else (if src &&& 1 = 0 then some (((ExtMem.reader s.ext).read16 src).setWidth 32) else none)
   else none
 
-/-- The documented rule, written as three nested loops (`dma.md`). -/
-def refCopy (c : DmaChannel) (s : RefSt) : Option RefSt := Id.run do
-  let n0 := c.n0
-  let n1 := c.n1
-  let n2 := c.n2
-  let mut src : U32 := c.addrSrcHigh ++ c.addrSrcLow
-  let mut dst : U32 := c.addrDstHigh ++ c.addrDstLow
-  let mut s := s
-  for k2 in [0:n2] do
-    for k1 in [0:n1] do
-      for k0 in [0:n0] do
-        match refElem c s src dst with
-        | none => return none
-        | some s' => s := s'
-        if k0 + 1 < n0 then
-          src := src + c.srcStep0.setWidth 32; dst := dst + c.dstStep0.setWidth 32
-        else if k1 + 1 < n1 then
-          src := src + c.srcStep1.setWidth 32; dst := dst + c.dstStep1.setWidth 32
-        else if k2 + 1 < n2 then
-          src := src + c.srcStep2.setWidth 32; dst := dst + c.dstStep2.setWidth 32
-  return some s
+/-- Store of one destination element for the reference copy (`s` is used linearly, so the array
+is updated in place). -/
+def refWrite (c : DmaChannel) (s : RefSt) (dst : U32) (value : U32) : Option RefSt :=
+  let dw := c.dwordMode ≠ 0
+  if c.dstSpace = 0 then
+    if dw then
+      match dspIndex (dst &&& 0xFFFFFFFE), dspIndex (dst ||| 1) with
+      | some il, some ih =>
+        let ⟨mem, ext⟩ := s
+        some ⟨DspMem.write (DspMem.write mem il (value.setWidth 16)) ih ((value >>> 16).setWidth 16), ext⟩
+      | _, _ => none
+    else
+      match dspIndex dst with
+      | some i =>
+        let ⟨mem, ext⟩ := s
+        some ⟨DspMem.write mem i (value.setWidth 16), ext⟩
+      | none => none
+  else if c.dstSpace = 7 then
+    if dw then
+      (if dst &&& 3 = 0 then
+        let ⟨mem, ext⟩ := s
+        some ⟨mem, ExtMem.apply ext ⟨.write, 32, dst, value⟩⟩ else none)
+    else
+      (if dst &&& 1 = 0 then
+        let ⟨mem, ext⟩ := s
+        some ⟨mem, ExtMem.apply ext ⟨.write, 16, dst, value &&& 0xFFFF⟩⟩ else none)
+  else none
+
+/-- Reference copy of one element (`none`: outside the stated domain). -/
+def refElem (c : DmaChannel) (s : RefSt) (src dst : U32) : Option RefSt :=
+  match refRead c s src with
+  | none => none
+  | some value => refWrite c s dst value
+
+/-- The documented rule (`dma.md`): three nested counters, the step of the dimension that advances
+is added to the cursor. -/
+partial def refLoop (c : DmaChannel) (n0 n1 n2 k0 k1 k2 : Nat) (src dst : U32) (s : RefSt) : Option RefSt :=
+  match refElem c s src dst with
+  | none => none
+  | some s' =>
+    if k0 + 1 < n0 then
+      refLoop c n0 n1 n2 (k0 + 1) k1 k2 (src + c.srcStep0.setWidth 32) (dst + c.dstStep0.setWidth 32) s'
+    else if k1 + 1 < n1 then
+      refLoop c n0 n1 n2 0 (k1 + 1) k2 (src + c.srcStep1.setWidth 32) (dst + c.dstStep1.setWidth 32) s'
+    else if k2 + 1 < n2 then
+      refLoop c n0 n1 n2 0 0 (k2 + 1) (src + c.srcStep2.setWidth 32) (dst + c.dstStep2.setWidth 32) s'
+    else some s'
+
+def refCopy (c : DmaChannel) (s : RefSt) : Option RefSt :=
+  refLoop c c.n0 c.n1 c.n2 0 0 0 (c.addrSrcHigh ++ c.addrSrcLow) (c.addrDstHigh ++ c.addrDstLow) s
 
 /-- Bytes of the overlay that differ from the background, sorted: canonical external content. -/
 def extCanon (e : HExt) : List (Nat × Nat) :=
@@ -252,13 +267,12 @@ def dmaStep (st0 : DmaSt) (args : List String) : DmaSt × String :=
     | some ch =>
       if ch < 8 then
         let c := st.dma.channels[ch]!
-        if c.dwordMode ≠ 0 ∧ c.size0 = 0xFFFF then (st, "hang") else
         let a := st.w.ahbm.getCh (st.w.ahbm.getChannelForDma ch).toNat
         let unitOk := (c.srcSpace ≠ 7 ∧ c.dstSpace ≠ 7) ∨ a.unitSize = (if c.dwordMode ≠ 0 then 2 else 1)
         match (if unitOk then refCopy c { mem := st.w.mem, ext := st.w.ext } else none) with
         | none => (st, "skip")
         | some ref =>
-          match st.dma.doDma st.w (.ofNat 16 ch) with
+          match st.dma.doDmaFuel (1 <<< 22) st.w (.ofNat 16 ch) with
           | .error e => (st, toString e)
           | .ok (d, w, irq) =>
             let m1 := memDigest w.mem
